@@ -1,1 +1,198 @@
--- property theorems of C12 (not built yet)
+/-
+  C12 — temperature profiles are finite, positive and bounded by their control values.
+  Every `theorem` of this file is an audited obligation about the definitions of TaurexModel/Temperature.lean
+  (the ones `driver_c12` executes on Float), here at the real carrier.
+-/
+import Proofs.C12Lemmas
+
+namespace Taurex.C12
+open Taurex.NpInterp Taurex.Temperature
+
+/-- Isothermal: one value per layer, all equal to the control temperature. -/
+theorem iso_const (t : ℝ) (n : Nat) : (isothermal t n).length = n ∧ ∀ v ∈ isothermal t n, v = t := by
+  unfold isothermal
+  exact ⟨List.length_replicate, fun v hv => (List.mem_replicate.1 hv).2⟩
+
+example : isothermal (1500 : ℝ) 3 = [1500, 1500, 1500] := rfl
+
+/-- NPoint is rejected as an invalid model exactly when two consecutive pressure nodes are not strictly
+    decreasing or a segment's slope |ΔT / Δlog10 P| reaches the limit — never NaN, never another error. -/
+theorem npoint_rejects (q : NPointParams ℝ) (n : Nat) (pressure : List ℝ) :
+    nPoint q n pressure = .invalid ↔
+      (∃ i, ∃ h : i + 1 < (q.pNodes pressure).length, (q.pNodes pressure)[i] ≤ (q.pNodes pressure)[i + 1]) ∨
+      (∃ i, ∃ hp : i + 1 < (q.pNodes pressure).length, ∃ ht : i + 1 < q.tNodes.length,
+        q.limitSlope ≤ |(q.tNodes[i + 1] - q.tNodes[i]) /
+          (log10 (q.pNodes pressure)[i + 1] - log10 (q.pNodes pressure)[i])|) := by
+  rw [nPoint_invalid_iff, NPointParams.rejected, Bool.or_eq_true, pressureInverted_iff, slopeTooHigh_iff]
+
+/-- the 4-node profile used in the non-vacuity examples: 9 layers, nodes 1e5 > 1e3 > 10 > 0.1 Pa -/
+noncomputable def exampleNPoint : NPointParams ℝ :=
+  { tSurface := 1500, tTop := 300, pSurface := some 100000, pTop := some (1 / 10), tPoints := [1200, 800],
+    pPoints := [1000, 10], window := 34, limitSlope := 9999999 }
+
+example : pressureInverted (exampleNPoint.pNodes []) = false := by
+  simp only [exampleNPoint, NPointParams.pNodes, resolveP, pressureInverted, List.cons_append, List.nil_append]
+  norm_num
+
+/-- NPoint with a smoothing window that is a percentage (0..100) never fails for any layer count: a profile
+    that passes the node check yields exactly one value per layer. -/
+theorem npoint_len (q : NPointParams ℝ) (n : Nat) (pressure : List ℝ) (hn : n = pressure.length)
+    (hw0 : 0 ≤ q.window) (hw1 : q.window ≤ 100) (hv : q.rejected pressure = false) :
+    ∃ prof, nPoint q n pressure = .ok prof ∧ prof.length = n := by
+  unfold nPoint
+  simp only [hv, Bool.false_eq_true, if_false]
+  obtain ⟨r, hr, hl, _⟩ := smooth_ok (q.interpolated pressure) n q.window
+    (by rw [interpolated_length]; exact hn) hw0 hw1 _ rfl
+  exact ⟨r, hr, by rw [hl, interpolated_length, hn]⟩
+
+example : (0 : ℝ) ≤ exampleNPoint.window ∧ exampleNPoint.window ≤ 100 := by
+  simp only [exampleNPoint]; norm_num
+
+/-- NPoint, smoothing included, never leaves the range `[lo, hi]` spanned by its node temperatures (so positive
+    nodes give a positive profile).  Guards: as many temperature as pressure points (enforced by the constructor)
+    and a positive top pressure node (log10 is taken of the nodes; the accepted ones are strictly decreasing). -/
+theorem npoint_between (q : NPointParams ℝ) (n : Nat) (pressure prof : List ℝ) (lo hi : ℝ)
+    (hlen : q.tPoints.length = q.pPoints.length)
+    (hpos : 0 < resolveP q.pTop (pressure.getD (pressure.length - 1) 0))
+    (hT : ∀ t ∈ q.tNodes, lo ≤ t ∧ t ≤ hi) (hok : nPoint q n pressure = .ok prof) :
+    ∀ t ∈ prof, lo ≤ t ∧ t ≤ hi := by
+  unfold nPoint at hok
+  split_ifs at hok with hrej
+  have hv : pressureInverted (q.pNodes pressure) = false := by
+    unfold NPointParams.rejected at hrej
+    rw [Bool.not_eq_true, Bool.or_eq_false_iff] at hrej
+    exact hrej.1
+  have hraw : Within lo hi (q.interpolated pressure) :=
+    interpolated_within q pressure hlen (pNodes_pos q pressure hv hpos) hv hT
+  exact smooth_within _ _ _ hraw (movingAverage_between _ _ hraw) (assembleSmoothed_mem _ _ _ hok)
+
+example : 0 < resolveP exampleNPoint.pTop (([] : List ℝ).getD (([] : List ℝ).length - 1) 0) := by
+  simp only [exampleNPoint, resolveP]; norm_num
+
+example : exampleNPoint.tPoints.length = exampleNPoint.pPoints.length ∧
+    (∀ t ∈ exampleNPoint.tNodes, (300 : ℝ) ≤ t ∧ t ≤ 1500) := by
+  refine ⟨rfl, ?_⟩
+  intro t ht
+  simp [exampleNPoint, NPointParams.tNodes] at ht
+  rcases ht with rfl | rfl | rfl | rfl <;> norm_num
+
+/-- all node temperatures equal ⇒ the NPoint profile is that constant -/
+theorem npoint_const (q : NPointParams ℝ) (n : Nat) (pressure prof : List ℝ) (c : ℝ)
+    (hlen : q.tPoints.length = q.pPoints.length)
+    (hpos : 0 < resolveP q.pTop (pressure.getD (pressure.length - 1) 0))
+    (hT : ∀ t ∈ q.tNodes, t = c) (hok : nPoint q n pressure = .ok prof) : ∀ t ∈ prof, t = c := by
+  intro t ht
+  have := npoint_between q n pressure prof c c hlen hpos
+    (fun t ht => by rw [hT t ht]; exact ⟨le_refl _, le_refl _⟩) hok t ht
+  linarith [this.1, this.2]
+
+example : ∀ t ∈ ({ exampleNPoint with tSurface := 700, tTop := 700, tPoints := [700, 700] } : NPointParams ℝ).tNodes,
+    t = 700 := by
+  intro t ht
+  simp [NPointParams.tNodes] at ht
+  exact ht
+
+/-- Rodgers 2000 with the default covariance: one value per layer, each inside the range of the layer
+    temperatures.  Guards: positive pressures (log of ratios), one temperature per layer.  (The correlation length
+    only has to be a number; `h = 0` is excluded by the harness because IEEE gives NaN where ℝ gives `x/0 = 0`.) -/
+theorem rodgers_between (tl : List ℝ) (h : ℝ) (pressure : List ℝ) (lo hi : ℝ) (_hh : h ≠ 0)
+    (hp : ∀ x ∈ pressure, 0 < x) (hlen : tl.length = pressure.length) (hT : ∀ t ∈ tl, lo ≤ t ∧ t ≤ hi) :
+    (rodgers tl h none pressure).length = pressure.length ∧
+      ∀ t ∈ rodgers tl h none pressure, lo ≤ t ∧ t ≤ hi :=
+  ⟨rodgers_default_length tl h pressure, rodgers_default_within tl h pressure hp hlen hT⟩
+
+example : (∀ x ∈ [(100000 : ℝ), 1000, 10], 0 < x) ∧ [(1500 : ℝ), 1000, 700].length = [(100000 : ℝ), 1000, 10].length ∧
+    (∀ t ∈ [(1500 : ℝ), 1000, 700], (700 : ℝ) ≤ t ∧ t ≤ 1500) := by
+  refine ⟨?_, rfl, ?_⟩
+  · intro x hx; simp at hx; rcases hx with rfl | rfl | rfl <;> norm_num
+  · intro x hx; simp at hx; rcases hx with rfl | rfl | rfl <;> norm_num
+
+/-- Rodgers: equal layer temperatures give a constant profile -/
+theorem rodgers_const (tl : List ℝ) (h : ℝ) (pressure : List ℝ) (c : ℝ) (hh : h ≠ 0)
+    (hp : ∀ x ∈ pressure, 0 < x) (hlen : tl.length = pressure.length) (hT : ∀ t ∈ tl, t = c) :
+    ∀ t ∈ rodgers tl h none pressure, t = c := by
+  intro t ht
+  have := (rodgers_between tl h pressure c c hh hp hlen
+    (fun t ht => by rw [hT t ht]; exact ⟨le_refl _, le_refl _⟩)).2 t ht
+  linarith [this.1, this.2]
+
+example : ∀ t ∈ [(900 : ℝ), 900, 900], t = 900 := by
+  intro t ht; simp at ht; exact ht
+
+/-- Rodgers with a user covariance: row-normalised non-negative weights (row sums equal to the column sums the
+    code divides by, e.g. any symmetric matrix) keep the profile inside the range of the layer temperatures. -/
+theorem rodgers_user_between (tl : List ℝ) (h : ℝ) (cov : List (List ℝ)) (pressure : List ℝ) (lo hi : ℝ)
+    (hnn : ∀ row ∈ cov, ∀ c ∈ row, 0 ≤ c) (hlen : ∀ row ∈ cov, row.length ≤ tl.length)
+    (hbal : ∀ i (h1 : i < cov.length) (h2 : i < (colSums cov).length),
+      (colSums cov)[i] = sumL cov[i] ∧ 0 < sumL cov[i])
+    (hT : ∀ t ∈ tl, lo ≤ t ∧ t ≤ hi) : ∀ t ∈ rodgers tl h (some cov) pressure, lo ≤ t ∧ t ≤ hi := by
+  unfold rodgers
+  exact correlateTemp_within cov tl hnn hlen hbal hT
+
+/- a symmetric 2×2 covariance: column sums [3, 4] = row sums, all positive -/
+example : colSums [[(2 : ℝ), 1], [1, 3]] = [3, 4] ∧ sumL [(2 : ℝ), 1] = 3 ∧ sumL [(1 : ℝ), 3] = 4 := by
+  refine ⟨?_, ?_, ?_⟩ <;> simp [colSums, sumL, List.range_succ] <;> norm_num
+
+/-- TemperatureArray (both code paths, optional reversal): one value per layer, inside the range of the
+    tabulated temperatures. -/
+theorem array_between (tp : List ℝ) (pp : Option (List ℝ)) (rev : Bool) (n : Nat) (pressure : List ℝ)
+    (lo hi : ℝ) (hne : 0 < tp.length) (hpp : ∀ pts, pp = some pts → 0 < pts.length)
+    (hn : n = pressure.length) (hT : ∀ t ∈ tp, lo ≤ t ∧ t ≤ hi) :
+    (tempArray tp pp rev n pressure).length = n ∧ ∀ t ∈ tempArray tp pp rev n pressure, lo ≤ t ∧ t ≤ hi := by
+  have hT' : Within lo hi (if rev then tp.reverse else tp) := by
+    split_ifs
+    · exact within_reverse hT
+    · exact hT
+  have hne' : 0 < (if rev then tp.reverse else tp).length := by
+    split_ifs <;> simpa using hne
+  unfold tempArray
+  cases pp with
+  | none => exact ⟨tempArrayPlain_length _ _, tempArrayPlain_within _ _ hne' hT'⟩
+  | some pts =>
+    refine ⟨by rw [tempArrayPressure_length, hn], tempArrayPressure_within _ _ _ hne' ?_ hT'⟩
+    have := hpp pts rfl
+    split_ifs <;> simpa using this
+
+example : (0 < [(2000 : ℝ), 1000].length) ∧ (∀ t ∈ [(2000 : ℝ), 1000], (1000 : ℝ) ≤ t ∧ t ≤ 2000) := by
+  refine ⟨by simp, ?_⟩
+  intro x hx; simp at hx; rcases hx with rfl | rfl <;> norm_num
+
+/-- Guillot 2010 is rejected as an invalid model exactly for zero opacities (`kappa_ir = 0`, or a zero
+    `gamma = kappa_v / kappa_ir`) or a negative irradiation / internal temperature; otherwise it returns a value
+    for every layer for which an `E2` pair is supplied. -/
+theorem guillot_rejects (q : GuillotParams ℝ) (g : ℝ) (pressure e21 e22 : List ℝ) :
+    (guillot q g pressure e21 e22 = .invalid ↔
+      q.kappaIr = 0 ∨ q.kappaV1 = 0 ∨ q.kappaV2 = 0 ∨ q.tIrr < 0 ∨ q.tInt < 0) ∧
+    (guillot q g pressure e21 e22 ≠ .invalid →
+      ∃ prof, guillot q g pressure e21 e22 = .ok prof ∧
+        prof.length = min pressure.length (min e21.length e22.length)) := by
+  have hrej := guillot_rejected_iff q
+  unfold guillot
+  by_cases hr : q.rejected = true
+  · simp only [hr, if_true, true_iff, ne_eq, not_true_eq_false, false_implies, and_true]
+    rcases hrej.1 hr with h | h | h | h | h
+    · exact Or.inl h
+    · rcases div_eq_zero_iff.1 h with h | h
+      · exact Or.inr (Or.inl h)
+      · exact Or.inl h
+    · rcases div_eq_zero_iff.1 h with h | h
+      · exact Or.inr (Or.inr (Or.inl h))
+      · exact Or.inl h
+    · exact Or.inr (Or.inr (Or.inr (Or.inl h)))
+    · exact Or.inr (Or.inr (Or.inr (Or.inr h)))
+  · simp only [hr, Bool.false_eq_true, if_false]
+    refine ⟨⟨fun h => by simp at h, fun h => ?_⟩, fun _ => ⟨_, rfl, by simp⟩⟩
+    exfalso
+    apply hr
+    rw [hrej]
+    rcases h with h | h | h | h | h
+    · exact Or.inl h
+    · exact Or.inr (Or.inl (by rw [h, zero_div]))
+    · exact Or.inr (Or.inr (Or.inl (by rw [h, zero_div])))
+    · exact Or.inr (Or.inr (Or.inr (Or.inl h)))
+    · exact Or.inr (Or.inr (Or.inr (Or.inr h)))
+
+example : ¬ ((1 / 100 : ℝ) = 0 ∨ (5 / 1000 : ℝ) = 0 ∨ (5 / 1000 : ℝ) = 0 ∨ (1500 : ℝ) < 0 ∨ (100 : ℝ) < 0) := by
+  norm_num
+
+end Taurex.C12
